@@ -8,7 +8,7 @@ bin=${PATCHECK:-/verif/bin/patcheck}
 : > "$out"
 worker() {
   k=$1; shift
-  R=/tmp/fm_$k
+  R=/tmp/${FMPREFIX:-fm}_$k
   rm -rf $R; git clone -q /repo $R || exit 2
   for d in "$@"; do
     case "$d" in */seeded/*) id=$(basename $(dirname $d));; *) id=$(basename $d .diff);; esac
@@ -16,13 +16,13 @@ worker() {
     if ! git -C $R apply $d 2>/dev/null; then echo "$id: patch does not apply" >> "$out"; continue; fi
     hit=""
     for p in $props; do
-      $bin -repo $R -prop $p -tier quick -evidence /tmp/fm_ev_$k.json > /tmp/fm_out_$k.txt 2>&1; c=$?
+      $bin -repo $R -prop $p -tier quick -evidence /tmp/${FMPREFIX:-fm}_ev_$k.json > /tmp/${FMPREFIX:-fm}_out_$k.txt 2>&1; c=$?
       [ $c = 1 ] && hit="$hit $p"
       [ $c != 0 ] && [ $c != 1 ] && hit="$hit $p(ERR)"
     done
     echo "$id: alarms:${hit:- none}" >> "$out"
   done
-  rm -rf $R /tmp/fm_ev_$k.json /tmp/fm_out_$k.txt
+  rm -rf $R /tmp/${FMPREFIX:-fm}_ev_$k.json /tmp/${FMPREFIX:-fm}_out_$k.txt
 }
 i=0; declare -A lists
 for d in "$@"; do k=$((i % n)); lists[$k]="${lists[$k]} $d"; i=$((i+1)); done
